@@ -97,9 +97,10 @@ class SliceByValue(Family):
 
     def configs(self, tier):
         Ls = (2, 3, 4, 5) if tier == "quick" else (2, 3, 4, 5, 6, 7)
-        return [{"L": L, "start": s, "stop": e} for L in Ls for s in ("omitted", "none", "sym") for e in ("omitted", "none", "sym")]
+        return [{"L": L, "start": s, "stop": e, "step": st} for L in Ls for s in ("omitted", "none", "sym") for e in ("omitted", "none", "sym")
+                for st in (1, 2, 3) if st == 1 or L >= 3]
 
-    def run(self, ctx, inst, L, start, stop):
+    def run(self, ctx, inst, L, start, stop, step=1):
         from traffic_weaver import Weaver
         xs, ys = ctx.reals("x", L), ctx.reals("y", L)
         increasing(ctx, xs)
@@ -123,9 +124,11 @@ class SliceByValue(Family):
         if lo is not None and hi is not None:
             ctx.assume(lo <= hi)
         w = Weaver(arr(ctx, xs), arr(ctx, ys))
+        if step != 1:
+            kw["step"] = step
         rx, ry = w.slice_by_value(**kw)
-        keep = [i for i in range(L) if (lo is None or bool(lo <= X[i])) and (hi is None or bool(X[i] <= hi))]
-        ctx.claim("slice_by_value:length", len(rx) == len(keep) and len(ry) == len(keep), {"keep": keep, "kw": list(kw)})
+        keep = [i for i in range(L) if (lo is None or bool(lo <= X[i])) and (hi is None or bool(X[i] <= hi))][::step]
+        ctx.claim("slice_by_value:length", len(rx) == len(keep) and len(ry) == len(keep), {"keep": keep, "kw": list(kw), "step": step})
         if len(rx) == len(keep) and len(ry) == len(keep):
             for k, i in enumerate(keep):
                 ctx.claim("slice_by_value:elements", ctx.And(ctx.same(rx[k], xs[i]), ctx.same(ry[k], ys[i])), {"k": k})
